@@ -29,7 +29,7 @@ RULE = ('All diffs produced by build_diff over the pair generator of C10 (edits:
         'of old and compared with apply_diff on another copy. Non-trivial: diff has >=1 change; '
         'distinct = (old sketch, new sketch, mode).')
 RULE_ADDITIONS = (' Added by the rounds of seeded changes (DESIGN 9.7): ' +
-                  'exec-fails:shared-values-out-of-dependency-order | UnboundLocalError | fix: emit in dependency order')
+                  'exec-fails:shared-values-out-of-dependency-order | UnboundLocalError | fix: emit in dependency order; a tagged **kwargs argument added by new')
 RULE = RULE + RULE_ADDITIONS
 ASSUMPTIONS = [
     'cases where apply_diff itself fails are C10 business and are skipped here (counted)',
